@@ -30,6 +30,9 @@ CONTENTS = {
     "casefold": '===DOC===\nMETA:\n  TYPE::T\n  VERSION::"1"\nRPR:\n  STATUS::active\n  NAME::x\n===END===\n',
     "unknown_field": '===DOC===\nMETA:\n  TYPE::T\n  VERSION::"1"\nRPR:\n  STATUS::ACTIVE\n  NAME::x\n  EXTRA::1\n===END===\n',
     "meta_unknown": '===DOC===\nMETA:\n  TYPE::SESSION_LOG\n  VERSION::"1.0"\n  OWNER::"x"\nRPR:\n  STATUS::ACTIVE\n  NAME::x\n===END===\n',
+    "null_req": '===DOC===\nMETA:\n  TYPE::T\n  VERSION::"1"\nRPR:\n  STATUS::ACTIVE\n  NAME::null\n===END===\n',
+    "empty_req": '===DOC===\nMETA:\n  TYPE::T\n  VERSION::"1"\nRPR:\n  STATUS::ACTIVE\n  NAME::""\n===END===\n',
+    "null_enum": '===DOC===\nMETA:\n  TYPE::T\n  VERSION::"1"\nRPR:\n  STATUS::null\n  NAME::x\n===END===\n',
     "unparseable": "===DOC===\nK::[1,2\n===END===\n",
     "tab": "===DOC===\n\tK::1\n===END===\n",
     "empty": "",
@@ -53,6 +56,36 @@ def _cwd():
 
         atexit.register(shutil.rmtree, _DIR, True)
     return _DIR
+
+
+RPR_FIELDS = (("STATUS", "REQ∧ENUM[DRAFT,ACTIVE]"), ("NAME", "REQ"))
+
+
+def _rpr_blocking(text: str) -> list[str]:
+    """independent of Validator._validate_section: the RPR block of the document against the RPR schema's own chains,
+    evaluated member by member with the real ConstraintChain (under the C08 contracts). A field written `KEY::null` is
+    PRESENT with value None. -> the blocking problems (empty = VALIDATED is backed)"""
+    from octave_mcp.core.ast_nodes import Assignment, Block
+    from octave_mcp.core.constraints import ConstraintChain
+    from octave_mcp.core.parser import parse_with_warnings
+
+    doc, _ = parse_with_warnings(text)
+    blk = next((s for s in doc.sections if isinstance(s, Block) and s.key == "RPR"), None)
+    if blk is None:
+        return []
+    fields = {}
+    for c in blk.children:
+        if isinstance(c, Assignment) and c.key not in fields:
+            fields[c.key] = c.value
+    out = []
+    for name, chain in RPR_FIELDS:
+        if name not in fields:
+            out.append(f"{name} is required and missing")
+            continue
+        r = ConstraintChain.parse(chain).evaluate(fields[name], f"RPR.{name}")
+        if not r.valid:
+            out.append(f"{name}={fields[name]!r} is refused by its own chain {chain} ({[e.code for e in r.errors]})")
+    return out
 
 
 def _check_common(res, tool, problems):
@@ -99,6 +132,10 @@ def _one(item):
                     problems.append("INVALID without a validation error")
                 if not res.get("schema_name") or not res.get("schema_version"):
                     problems.append("INVALID without schema_name/schema_version")
+            if st == "VALIDATED" and schema == "RPR" and (profile or "STANDARD").upper() in ("STRICT", "STANDARD"):
+                blocking = _rpr_blocking(res["canonical"] if isinstance(res.get("canonical"), str) and not diff_only else content)
+                if blocking and not (diff_only and fix):
+                    problems.append(f"VALIDATED although the schema's own chains refuse the document: {blocking}")
             if st == "VALIDATED" and not diff_only and isinstance(res.get("canonical"), str):
                 # the text returned as VALIDATED (repaired or not) is valid under the same schema and profile
                 kw2 = dict(kw)
@@ -118,6 +155,10 @@ def _one(item):
                 problems.append(f"status=error with validation_status={st}")
             if st == "INVALID" and (not res.get("validation_errors") or not res.get("schema_name") or not res.get("schema_version")):
                 problems.append("INVALID without validation_errors / schema name / version")
+            if st == "VALIDATED" and schema == "RPR" and not lenient:
+                blocking = _rpr_blocking(content)
+                if blocking:
+                    problems.append(f"VALIDATED although the schema's own chains refuse the document: {blocking}")
             if os.path.exists(p):
                 os.unlink(p)
         elif tool == "eject":
